@@ -132,6 +132,29 @@ func scenarios(seed int64, thorough bool) []*Scenario {
 	add(&Scenario{Class: "gate-complete", Kind: "sse", IntervalNs: 2_000_000, N: 0, Hold: "complete", CutAt: -1})
 	add(&Scenario{Class: "gate-return", Kind: "sse", IntervalNs: 2_000_000, N: 0, Hold: "return", CutAt: -1})
 
+	// Mechanism A, slow-flush family (for designs that lock): the Flush after one write site stays
+	// open for 4 ms while pings are due every few tens of microseconds, so a keep-alive tick is
+	// certainly parked on the connection mutex when that critical section ends - for every write
+	// site, `complete` included; for multipart the other flusher is parked behind the held Flush
+	sf := 1
+	if thorough {
+		sf = 12
+	}
+	for k := 0; k < sf; k++ {
+		for _, h := range []string{"flush:pre", "flush:next:1", "flush:next:2", "flush:complete"} {
+			iv := int64(20_000 + r.Intn(40_000))
+			add(&Scenario{Class: "gate-slowflush", Kind: "sse", IntervalNs: iv, N: 2, Sizes: pickSizes(r, 2, false),
+				DelaysNs: []int64{int64(r.Intn(300_000)), int64(r.Intn(300_000))}, EndDelayNs: int64(r.Intn(200_000)), Hold: h, CutAt: -1})
+		}
+		add(&Scenario{Class: "gate-slowflush", Kind: "sse", IntervalNs: int64(20_000 + r.Intn(40_000)), N: 0, Hold: "flush:complete", CutAt: -1})
+		add(&Scenario{Class: "gate-slowflush", Kind: "sse", IntervalNs: int64(20_000 + r.Intn(40_000)), N: 1, ErrMode: true, Hold: "flush:complete", CutAt: -1})
+		for _, h := range []string{"flush:close", "flush:n:1", "flush:n:2"} {
+			add(&Scenario{Class: "gate-slowflush-mm", Kind: "mm", IntervalNs: 1_000_000, N: 2, Sizes: pickSizes(r, 3, false),
+				DelaysNs: []int64{0, int64(r.Intn(1_500_000)), int64(r.Intn(1_500_000))}, EndDelayNs: int64(r.Intn(1_500_000)), Hold: h, CutAt: -1})
+		}
+		add(&Scenario{Class: "gate-slowflush-mm", Kind: "mm", IntervalNs: 1_000_000, N: 0, Sizes: []int{40}, DelaysNs: []int64{0}, Hold: "flush:close", CutAt: -1})
+	}
+
 	// 2. SSE with keep-alive: interval sweep 1 microsecond .. 10 ms
 	k := 45
 	if thorough {
